@@ -14,6 +14,7 @@ type drvReplayFns struct {
 var drvReg = map[string]drvReplayFns{}
 
 func regDrv[T any](d *Driver[T]) {
+	d.init()
 	drvReg[d.Name] = drvReplayFns{
 		sched: func(prop string, c *Case, or Oracles) []*Violation { return replaySchedule(prop, d, c, or) },
 		ext:   func(prop string, c *Case, or Oracles) []*Violation { return replayExtension(prop, d, c, or) },
